@@ -118,6 +118,7 @@ constexpr parser rec(
         c_stmt('i', '(', 'x', ')', c_stmt) >= [](skip, skip, skip, skip, int s) { return (2 * s + 1) % 100003; },
         c_stmt('i', '(', error, ')', c_stmt) >= [](skip, skip, skip, skip, int s) { return (3 * s + 2) % 100003; },
         c_stmt('{', c_stmts, '}') >= [](skip, int s, skip) { return (s + 7) % 100003; },
+        c_stmt(error, ';') >= val(9),          // reachable from several states with the same lookaheads: their error shifts lead to ONE target state
         c_stmts() >= val(0),
         c_stmts(c_stmts, c_stmt) >= [](int a, int b) { return (5 * a + b) % 100003; }
     )
